@@ -86,6 +86,18 @@ class Host(object):
     def __init__(self, m):
         self.m = m
         self.homes = {}
+        self.types = {}           # type name -> the S_DT instance an action of the homes sees under that name
+        self.variant = None
+
+
+# Host variants (build_host(m, variant)).  None: every element is global (no package, no component).  'components': three
+# components below one system-level package, created in this order: a twin, the component of the four homes, a twin.  A twin
+# declares everything an action refers to through the names visible from its component -- classes with the same key letters
+# and attribute names, associations with the same numbers and phrases, functions, an external entity with the same key
+# letters and bridges, operations -- with every declared type replaced according to TWIN_RETYPE.  Names in an action are
+# resolved from the component that defines the action, so the twins must never show in its population.
+HOST_VARIANTS = (None, 'components')
+TWIN_RETYPE = {'integer': 'string', 'string': 'boolean', 'boolean': 'real', 'real': 'integer', 'Color': 'Mode'}
 
 
 def loader():
@@ -93,10 +105,11 @@ def loader():
     return ooaofooa.Loader()
 
 
-def build_host(m):
+def build_host(m, variant=None):
     '''Populate the ooaofooa metamodel *m* through the API.  Returns a Host.'''
     import xtuml
     from xtuml import where_eq as where
+    assert variant in HOST_VARIANTS, variant
 
     def rel(a, b, n, phrase=''):
         if not xtuml.relate(a, b, n, phrase):
@@ -107,12 +120,19 @@ def build_host(m):
         assert d is not None, name
         return d
 
-    def pe(inst, ty):
+    package = [None]            # the EP_PKG the packageable elements created next belong to (None: they are global)
+
+    def pe(inst, ty, c_c=None):
         p = m.new('PE_PE', Visibility=1, type=ty)
         rel(inst, p, 8001)
+        if c_c is not None:
+            rel(p, c_c, 8003)
+        elif package[0] is not None:
+            rel(p, package[0], 8000)
         return p
 
     host = Host(m)
+    host.variant = variant
 
     # -- enumerations Color {Red, Green, Blue} and Mode {Off, Red, On}, chained by R56 --------------------
     for ename, enumerators in ENUMS:
@@ -159,169 +179,199 @@ def build_host(m):
             assert syc.Previous_Const_ID == prev_syc[gname].Const_ID, 'host: R1505 chained the wrong way'
         prev_syc[gname] = syc
 
-    # -- classes ----------------------------------------------------------------------
-    objs, attrs, oids = {}, {}, {}
-    for numb, kl in enumerate(sorted(CLASSES), 1):
-        o_obj = m.new('O_OBJ', Name='Class ' + kl, Key_Lett=kl, Numb=numb)      # name differs from the key letters
-        pe(o_obj, 4)
-        objs[kl] = o_obj
-        for i in range(3):
-            o_id = m.new('O_ID', Oid_ID=i)
-            rel(o_id, o_obj, 104)
-            oids[kl, i] = o_id
-        for isset in (False, True):
-            s_dt = m.new('S_DT', Name=('inst_ref_set<%s>' if isset else 'inst_ref<%s>') % kl)
-            pe(s_dt, 3)
-            s_irdt = m.new('S_IRDT', isSet=isset)
-            rel(s_irdt, s_dt, 17)
-            rel(s_irdt, o_obj, 123)
-    for kl in sorted(CLASSES):
-        prev = None
-        for name, ty, kind in CLASSES[kl]:
-            o_attr = m.new('O_ATTR', Name=name, Root_Nam=name)
-            rel(o_attr, objs[kl], 102)
-            rel(o_attr, dt('same_as<Base_Attribute>' if kind == 'ref' else ty), 114)
-            if prev is not None:
-                rel(prev, o_attr, 103, 'precedes')
-            prev = o_attr
-            attrs[kl, name] = o_attr
-            if kind == 'ref':
-                continue
-            o_battr = m.new('O_BATTR')
-            rel(o_battr, o_attr, 106)
-            if kind == 'derived':
-                o_dbattr = m.new('O_DBATTR')
-                rel(o_dbattr, o_battr, 107)
-                host.homes['attribute'] = o_dbattr
-            else:
-                rel(m.new('O_NBATTR'), o_battr, 107)
-        o_oida = m.new('O_OIDA', localAttributeName='Id')
-        rel(o_oida, oids[kl, 0], 105)
-        rel(o_oida, attrs[kl, 'Id'], 105)
-    assert attrs['A', 'Flag'].PAttr_ID == attrs['A', 'Id'].Attr_ID, 'host: R103 chained the wrong way'
+    def component(own, retype):
+        '''Everything an action refers to through its component: classes, associations, functions, the external entity
+        and the operations.  own: the component of the four homes; retype: declared type -> type declared here.'''
+        # -- classes ----------------------------------------------------------------------
+        objs, attrs, oids = {}, {}, {}
+        for numb, kl in enumerate(sorted(CLASSES), 1):
+            o_obj = m.new('O_OBJ', Name=('Class ' if own else 'Twin ') + kl, Key_Lett=kl, Numb=numb)      # name differs from the key letters
+            pe(o_obj, 4)
+            objs[kl] = o_obj
+            for i in range(3):
+                o_id = m.new('O_ID', Oid_ID=i)
+                rel(o_id, o_obj, 104)
+                oids[kl, i] = o_id
+            for isset in (False, True):
+                s_dt = m.new('S_DT', Name=('inst_ref_set<%s>' if isset else 'inst_ref<%s>') % kl)
+                pe(s_dt, 3)
+                s_irdt = m.new('S_IRDT', isSet=isset)
+                rel(s_irdt, s_dt, 17)
+                rel(s_irdt, o_obj, 123)
+                if own:
+                    host.types[s_dt.Name] = s_dt
+        for kl in sorted(CLASSES):
+            prev = None
+            for name, ty, kind in CLASSES[kl]:
+                o_attr = m.new('O_ATTR', Name=name, Root_Nam=name)
+                rel(o_attr, objs[kl], 102)
+                rel(o_attr, dt('same_as<Base_Attribute>' if kind == 'ref' else retype(ty)), 114)
+                if prev is not None:
+                    rel(prev, o_attr, 103, 'precedes')
+                prev = o_attr
+                attrs[kl, name] = o_attr
+                if kind == 'ref':
+                    continue
+                o_battr = m.new('O_BATTR')
+                rel(o_battr, o_attr, 106)
+                if kind == 'derived':
+                    o_dbattr = m.new('O_DBATTR')
+                    rel(o_dbattr, o_battr, 107)
+                    if own:
+                        host.homes['attribute'] = o_dbattr
+                else:
+                    rel(m.new('O_NBATTR'), o_battr, 107)
+            o_oida = m.new('O_OIDA', localAttributeName='Id')
+            rel(o_oida, oids[kl, 0], 105)
+            rel(o_oida, attrs[kl, 'Id'], 105)
+        assert attrs['A', 'Flag'].PAttr_ID == attrs['A', 'Id'].Attr_ID, 'host: R103 chained the wrong way'
 
-    # -- relationships, one R_OIR per end ---------------------------------------------------
-    def r_rel(numb):
-        r = m.new('R_REL', Numb=numb)
-        pe(r, 9)
-        return r
+        # -- relationships, one R_OIR per end ---------------------------------------------------
+        def r_rel(numb):
+            r = m.new('R_REL', Numb=numb)
+            pe(r, 9)
+            return r
 
-    def oir(r, kl):
-        x = m.new('R_OIR')
-        rel(x, r, 201)
-        rel(x, objs[kl], 201)
-        return x
+        def oir(r, kl):
+            x = m.new('R_OIR')
+            rel(x, r, 201)
+            rel(x, objs[kl], 201)
+            return x
 
-    def rto(r, kl, sub, **kw):
-        r_rto = m.new('R_RTO')
-        rel(r_rto, oir(r, kl), 203)
-        rel(r_rto, oids[kl, 0], 109)
-        s = m.new(sub, **kw)
-        rel(s, r_rto, 204)
-        return r_rto, s
+        def rto(r, kl, sub, **kw):
+            r_rto = m.new('R_RTO')
+            rel(r_rto, oir(r, kl), 203)
+            rel(r_rto, oids[kl, 0], 109)
+            s = m.new(sub, **kw)
+            rel(s, r_rto, 204)
+            return r_rto, s
 
-    def rgo(r, kl, sub, **kw):
-        r_rgo = m.new('R_RGO')
-        rel(r_rgo, oir(r, kl), 203)
-        s = m.new(sub, **kw)
-        rel(s, r_rgo, 205)
-        return r_rgo, s
+        def rgo(r, kl, sub, **kw):
+            r_rgo = m.new('R_RGO')
+            rel(r_rgo, oir(r, kl), 203)
+            s = m.new(sub, **kw)
+            rel(s, r_rgo, 205)
+            return r_rgo, s
 
-    # R1: A (participant) 1 -- * B (formaliser), B.A_Id refers to A.Id
-    r1 = r_rel(1)
-    r_simp = m.new('R_SIMP')
-    rel(r_simp, r1, 206)
-    r_rto, r_part = rto(r1, 'A', 'R_PART', Mult=0, Cond=0, Txt_Phrs=PHRASES[1, 'A'])
-    rel(r_part, r_simp, 207)
-    r_rgo, r_form = rgo(r1, 'B', 'R_FORM', Mult=1, Cond=1, Txt_Phrs=PHRASES[1, 'B'])
-    rel(r_form, r_simp, 208)
-    o_rattr = m.new('O_RATTR', Ref_Mode=0, BaseAttrName='Id')
-    rel(o_rattr, attrs['B', 'A_Id'], 106)
-    rel(o_rattr, xtuml.navigate_one(attrs['A', 'Id']).O_BATTR[106](), 113)
-    o_rtida = m.new('O_RTIDA')
-    rel(o_rtida, r_rto, 110)
-    rel(o_rtida, xtuml.navigate_one(attrs['A', 'Id']).O_OIDA[105](), 110)
-    o_ref = m.new('O_REF', Is_Cstrd=False, RObj_Name='A', RAttr_Name='Id')
-    rel(o_ref, r_rgo, 111)
-    rel(o_ref, o_rtida, 111)
-    rel(o_ref, o_rattr, 108)
+        # R1: A (participant) 1 -- * B (formaliser), B.A_Id refers to A.Id
+        r1 = r_rel(1)
+        r_simp = m.new('R_SIMP')
+        rel(r_simp, r1, 206)
+        r_rto, r_part = rto(r1, 'A', 'R_PART', Mult=0, Cond=0, Txt_Phrs=PHRASES[1, 'A'])
+        rel(r_part, r_simp, 207)
+        r_rgo, r_form = rgo(r1, 'B', 'R_FORM', Mult=1, Cond=1, Txt_Phrs=PHRASES[1, 'B'])
+        rel(r_form, r_simp, 208)
+        o_rattr = m.new('O_RATTR', Ref_Mode=0, BaseAttrName='Id')
+        rel(o_rattr, attrs['B', 'A_Id'], 106)
+        rel(o_rattr, xtuml.navigate_one(attrs['A', 'Id']).O_BATTR[106](), 113)
+        o_rtida = m.new('O_RTIDA')
+        rel(o_rtida, r_rto, 110)
+        rel(o_rtida, xtuml.navigate_one(attrs['A', 'Id']).O_OIDA[105](), 110)
+        o_ref = m.new('O_REF', Is_Cstrd=False, RObj_Name='A', RAttr_Name='Id')
+        rel(o_ref, r_rgo, 111)
+        rel(o_ref, o_rtida, 111)
+        rel(o_ref, o_rattr, 108)
 
-    # R2: reflexive on A with the phrases 'next' / 'prev'
-    r2 = r_rel(2)
-    r_simp = m.new('R_SIMP')
-    rel(r_simp, r2, 206)
-    _, r_part = rto(r2, 'A', 'R_PART', Mult=0, Cond=1, Txt_Phrs=PHRASES[2, 'part'])
-    rel(r_part, r_simp, 207)
-    _, r_form = rgo(r2, 'A', 'R_FORM', Mult=0, Cond=1, Txt_Phrs=PHRASES[2, 'form'])
-    rel(r_form, r_simp, 208)
+        # R2: reflexive on A with the phrases 'next' / 'prev'
+        r2 = r_rel(2)
+        r_simp = m.new('R_SIMP')
+        rel(r_simp, r2, 206)
+        _, r_part = rto(r2, 'A', 'R_PART', Mult=0, Cond=1, Txt_Phrs=PHRASES[2, 'part'])
+        rel(r_part, r_simp, 207)
+        _, r_form = rgo(r2, 'A', 'R_FORM', Mult=0, Cond=1, Txt_Phrs=PHRASES[2, 'form'])
+        rel(r_form, r_simp, 208)
 
-    # R3: A -- B linked through the association class C
-    r3 = r_rel(3)
-    r_assoc = m.new('R_ASSOC')
-    rel(r_assoc, r3, 206)
-    _, r_aone = rto(r3, 'A', 'R_AONE', Mult=0, Cond=1, Txt_Phrs=PHRASES[3, 'A'])
-    rel(r_aone, r_assoc, 209)
-    _, r_aoth = rto(r3, 'B', 'R_AOTH', Mult=1, Cond=1, Txt_Phrs=PHRASES[3, 'B'])
-    rel(r_aoth, r_assoc, 210)
-    _, r_assr = rgo(r3, 'C', 'R_ASSR', Mult=0)
-    rel(r_assr, r_assoc, 211)
+        # R3: A -- B linked through the association class C
+        r3 = r_rel(3)
+        r_assoc = m.new('R_ASSOC')
+        rel(r_assoc, r3, 206)
+        _, r_aone = rto(r3, 'A', 'R_AONE', Mult=0, Cond=1, Txt_Phrs=PHRASES[3, 'A'])
+        rel(r_aone, r_assoc, 209)
+        _, r_aoth = rto(r3, 'B', 'R_AOTH', Mult=1, Cond=1, Txt_Phrs=PHRASES[3, 'B'])
+        rel(r_aoth, r_assoc, 210)
+        _, r_assr = rgo(r3, 'C', 'R_ASSR', Mult=0)
+        rel(r_assr, r_assoc, 211)
 
-    # -- functions ----------------------------------------------------------------------------
-    for numb, name in enumerate(sorted(FUNCTIONS), 1):
-        ret, params = FUNCTIONS[name]
-        s_sync = m.new('S_SYNC', Name=name, Numb=numb, Suc_Pars=0)
-        pe(s_sync, 1)
-        rel(s_sync, dt(ret), 25)
-        prev = None
-        for pname, pty in params:
-            s_sparm = m.new('S_SPARM', Name=pname, By_Ref=0)
-            rel(s_sparm, s_sync, 24)
-            rel(s_sparm, dt(pty), 26)
-            if prev is not None:
-                rel(prev, s_sparm, 54, 'precedes')
-            prev = s_sparm
-        if name == 'f':
-            host.homes['function'] = s_sync
+        # -- functions ----------------------------------------------------------------------------
+        for numb, name in enumerate(sorted(FUNCTIONS), 1):
+            ret, params = FUNCTIONS[name]
+            s_sync = m.new('S_SYNC', Name=name, Numb=numb, Suc_Pars=0)
+            pe(s_sync, 1)
+            rel(s_sync, dt(retype(ret)), 25)
+            prev = None
+            for pname, pty in params:
+                s_sparm = m.new('S_SPARM', Name=pname, By_Ref=0)
+                rel(s_sparm, s_sync, 24)
+                rel(s_sparm, dt(retype(pty)), 26)
+                if prev is not None:
+                    rel(prev, s_sparm, 54, 'precedes')
+                prev = s_sparm
+            if name == 'f' and own:
+                host.homes['function'] = s_sync
 
-    # -- external entity with bridges ------------------------------------------------------------
-    s_ee = m.new('S_EE', Name='External Entity', Key_Lett=EE)
-    pe(s_ee, 5)
-    for name in sorted(BRIDGES):
-        ret, params = BRIDGES[name]
-        s_brg = m.new('S_BRG', Name=name, Brg_Typ=0, Suc_Pars=0)
-        rel(s_brg, s_ee, 19)
-        rel(s_brg, dt(ret), 20)
-        prev = None
-        for pname, pty in params:
-            s_bparm = m.new('S_BPARM', Name=pname, By_Ref=0)
-            rel(s_bparm, s_brg, 21)
-            rel(s_bparm, dt(pty), 22)
-            if prev is not None:
-                rel(prev, s_bparm, 55, 'precedes')
-            prev = s_bparm
-        if name == 'b':
-            host.homes['bridge'] = s_brg
+        # -- external entity with bridges ------------------------------------------------------------
+        s_ee = m.new('S_EE', Name='External Entity' if own else 'Twin Entity', Key_Lett=EE)
+        pe(s_ee, 5)
+        for name in sorted(BRIDGES):
+            ret, params = BRIDGES[name]
+            s_brg = m.new('S_BRG', Name=name, Brg_Typ=0, Suc_Pars=0)
+            rel(s_brg, s_ee, 19)
+            rel(s_brg, dt(retype(ret)), 20)
+            prev = None
+            for pname, pty in params:
+                s_bparm = m.new('S_BPARM', Name=pname, By_Ref=0)
+                rel(s_bparm, s_brg, 21)
+                rel(s_bparm, dt(retype(pty)), 22)
+                if prev is not None:
+                    rel(prev, s_bparm, 55, 'precedes')
+                prev = s_bparm
+            if name == 'b' and own:
+                host.homes['bridge'] = s_brg
 
-    # -- operations of A ----------------------------------------------------------------------------
-    prev_tfr = None
-    for numb, name in enumerate(['op', 'cop'], 1):
-        ret, instance_based, params = OPERATIONS[name]
-        o_tfr = m.new('O_TFR', Name=name, Instance_Based=int(instance_based), Numb=numb, Suc_Pars=0)
-        rel(o_tfr, objs['A'], 115)
-        rel(o_tfr, dt(ret), 116)
-        if prev_tfr is not None:
-            rel(prev_tfr, o_tfr, 125, 'precedes')
-        prev_tfr = o_tfr
-        prev = None
-        for pname, pty in params:
-            o_tparm = m.new('O_TPARM', Name=pname, By_Ref=0)
-            rel(o_tparm, o_tfr, 117)
-            rel(o_tparm, dt(pty), 118)
-            if prev is not None:
-                rel(prev, o_tparm, 124, 'precedes')
-            prev = o_tparm
-        if name == 'op':
-            host.homes['operation'] = o_tfr
+        # -- operations of A ----------------------------------------------------------------------------
+        prev_tfr = None
+        for numb, name in enumerate(['op', 'cop'], 1):
+            ret, instance_based, params = OPERATIONS[name]
+            o_tfr = m.new('O_TFR', Name=name, Instance_Based=int(instance_based), Numb=numb, Suc_Pars=0)
+            rel(o_tfr, objs['A'], 115)
+            rel(o_tfr, dt(retype(ret)), 116)
+            if prev_tfr is not None:
+                rel(prev_tfr, o_tfr, 125, 'precedes')
+            prev_tfr = o_tfr
+            prev = None
+            for pname, pty in params:
+                o_tparm = m.new('O_TPARM', Name=pname, By_Ref=0)
+                rel(o_tparm, o_tfr, 117)
+                rel(o_tparm, dt(retype(pty)), 118)
+                if prev is not None:
+                    rel(prev, o_tparm, 124, 'precedes')
+                prev = o_tparm
+            if name == 'op' and own:
+                host.homes['operation'] = o_tfr
+
+
+    if variant is None:
+        component(True, lambda t: t)
+    else:
+        s_sys = m.new('S_SYS', Name='host')
+        root = m.new('EP_PKG', Name='system')
+        pe(root, 7)
+        rel(root, s_sys, 1401)
+        rel(root, s_sys, 1405)
+        for cname in ('before', 'own', 'after'):
+            c_c = m.new('C_C', Name=cname)
+            package[0] = root
+            pe(c_c, 2)
+            pkg = m.new('EP_PKG', Name=cname + ' elements')      # the usual layout: a package inside the component
+            pe(pkg, 7, c_c=c_c)
+            rel(pkg, s_sys, 1405)
+            package[0] = pkg
+            component(cname == 'own', (lambda t: t) if cname == 'own' else (lambda t: TWIN_RETYPE.get(t, t)))
+        package[0] = None
+    for s_dt in m.select_many('S_DT'):
+        if xtuml.navigate_one(s_dt).S_IRDT[17]() is None:
+            assert s_dt.Name not in host.types, 'host: two data types named %s' % s_dt.Name
+            host.types[s_dt.Name] = s_dt
 
     assert sorted(host.homes) == sorted(HOMES)
     return host
@@ -983,40 +1033,40 @@ def complete(stmts, home, paren='minimal'):
 RUN_LIMIT_S = 20.0       # soft limit inside the child (core.time_limit)
 KILL_AFTER_S = 60.0      # hard limit enforced by the parent
 
-_worker_host = None
+_worker_hosts = {}
 
 
-def worker_host():
-    '''The pristine host of this process (built once, verified consistent).'''
-    global _worker_host
-    if _worker_host is None:
+def worker_host(variant=None):
+    '''The pristine host (of the given variant) of this process (built once, verified consistent).'''
+    if variant not in _worker_hosts:
         from mc import core
         m = loader().build_metamodel()
-        host = build_host(m)
+        host = build_host(m, variant)
         if not m.is_consistent():
-            raise core.HarnessError('the host model is inconsistent before prebuild')
+            raise core.HarnessError('the host model (%s) is inconsistent before prebuild' % variant)
         bad = constraint_violations(m)
         if bad:
-            raise core.HarnessError('the host model violates schema constraints before prebuild: %s' % bad[:5])
-        _worker_host = host
+            raise core.HarnessError('the host model (%s) violates schema constraints before prebuild: %s' % (variant, bad[:5]))
+        _worker_hosts[variant] = host
         # everything alive now is shared with the forked children: keep the collector from touching (and thereby
         # copying) those pages in every child
         import gc
         gc.collect()
         gc.freeze()
-    return _worker_host
+    return _worker_hosts[variant]
 
 
-def isolated(ctx, fn, *args):
-    '''Run fn(subctx, host, *args) in a forked child on a snapshot of the pristine host.  The child's counters,
-    sets and violations are merged into ctx.  Returns fn's (picklable) result, or ('killed',) / ('died', text).'''
+def isolated(ctx, fn, *args, **kw):
+    '''Run fn(subctx, host, *args) in a forked child on a snapshot of the pristine host (keyword variant: which host).
+    The child's counters, sets and violations are merged into ctx.  Returns fn's (picklable) result, or ('killed',) /
+    ('died', text).'''
     import os
     import pickle
     import select
     import signal
     import time
     from mc import core
-    host = worker_host()
+    host = worker_host(kw.get('variant'))
     r, w = os.pipe()
     pid = os.fork()
     if pid == 0:
@@ -1116,14 +1166,17 @@ def case_of(task, **extra):
              layout=task.get('layout', 'default'))
     if task.get('history'):
         c['history'] = task['history']          # what the process did before this translation: part of the case
+    if task.get('host'):
+        c['host'] = task['host']                # the variant of the host model
     c.update(extra)
     return c
 
 
-def unit_test(text, home, extra=''):
-    return ('# host: mc.refs.prebuildhost.build_host(bridgepoint.ooaofooa.Loader().build_metamodel())\n'
+def unit_test(text, home, extra='', variant=None):
+    return ('# host: mc.refs.prebuildhost.build_host(bridgepoint.ooaofooa.Loader().build_metamodel()%s)\n'
             'inst = host.homes[%r]\ninst.Action_Semantics_internal = %r\n'
-            'bridgepoint.prebuild_action(inst)\nprint(bridgepoint.gen_text_action(inst))\n%s' % (home, text, extra))
+            'bridgepoint.prebuild_action(inst)\nprint(bridgepoint.gen_text_action(inst))\n%s' %
+            (', %r' % variant if variant else '', home, text, extra))
 
 
 LAYOUTS = {
@@ -1133,7 +1186,20 @@ LAYOUTS = {
     'upper': 'upper',                                  # one line, every keyword in UPPER case
     'cap': 'cap',                                      # one line, every keyword Capitalised
     'mixed': 'mixed',                                  # one line, every keyword in aLtErNaTiNg case
+    'remarks': 'remarks',                              # several lines, comments holding every character of ODD_CHARACTERS
 }
+# Characters str.splitlines() (and \s, and some editors) take as line boundaries although they are none in OAL, where a
+# line ends in "\n" only: form feed, vertical tab, FS, GS, RS, NEL, LINE and PARAGRAPH SEPARATOR -- and a lone carriage
+# return, which is blank space.  In the layout "remarks" they stand inside block comments and "//" comments in front
+# of, behind and between the tokens of statements, so that a line counted for one of them shifts every later position.
+ODD_CHARACTERS = '\x0c\x0b\x1c\x1d\x1e\x85\u2028\u2029'
+REMARK_GAPS = [
+    ' /* page\x0c break, \x0b, FS\x1c GS\x1d RS\x1e, NEL\x85, LS\u2028 PS\u2029 */\n  ',       # trailing the previous statement
+    '\n  /*\x0c*/ ',                                                                           # in front, on the line of the statement
+    '\n// \x0c\x85\u2028 \r c\n  ',                                                             # a "//" line of its own
+    '\n/* a\x0b\n b\r\x85\n*/\n  ',                                                             # a comment of three lines
+]
+REMARK_INNER = [' /*\x0b*/ ', ' \r ', ' /* \u2028\x0c */\n    ']                                # between the tokens of a statement
 
 
 def layout_of(printed, name):
@@ -1150,6 +1216,18 @@ def layout_of(printed, name):
         return oalast.Layout(default='\n ')
     if name in ('upper', 'cap', 'mixed'):
         return oalast.Layout(kwcase=lambda kind, n: name)
+    if name == 'remarks':
+        gaps = {}
+        k = 0
+        for i, t in enumerate(printed.toks):
+            if not i or printed.toks[i - 1].glue:
+                continue
+            if printed.toks[i - 1].text == ';':
+                gaps[i] = REMARK_GAPS[k % len(REMARK_GAPS)]
+                k += 1
+            elif i % 4 == 2:
+                gaps[i] = REMARK_INNER[(i // 4) % len(REMARK_INNER)]
+        return oalast.Layout(gaps=gaps, lead='/*\x85\x0c*/ /* \x0b */\n', trail=' /*\x0c*/')
     raise ValueError(name)
 
 
@@ -1302,6 +1380,8 @@ def record_coverage(ctx, task, an, ok):
     key = (repr(task['stmts']), task['home'])
     if task.get('history'):
         key += (repr(task['history']),)
+    if task.get('host'):
+        key += (task['host'],)
     ctx.distinct('states', key)
     ctx.distinct('programs', repr(task['stmts']))
     ctx.distinct('home:' + task['home'], repr(task['stmts']))
@@ -1979,6 +2059,7 @@ class Walk(object):
         self.one, self.many = xtuml.navigate_one, xtuml.navigate_many
         self.reported = set()
         self.checks = 0
+        self.namesakes = 0       # data types compared by identity that have a namesake in another component
         self.seen_smt, self.seen_val, self.seen_var, self.seen_blk = set(), set(), set(), set()
         self.loose = []          # expected nodes whose value instance nothing refers to (statement invocations, operation targets)
 
@@ -1993,10 +2074,12 @@ class Walk(object):
             sig = 'after-history:' + sig
             after = ', after %s' % '; '.join('%s of %r (%s)' % (how, (REJECTED_TEXTS if exp == 'rejected' else ACCEPTED_TEXTS)[name], exp)
                                              for how, exp, name in hist)
+        if self.task.get('host'):
+            after += ', host variant %r (build_host(m, %r))' % (self.task['host'], self.task['host'])
         self.sub.violation('c06:' + sig, case_of(self.task),
                            '%s  [program %r, %s home, layout %s%s]' % (message, self.text, self.task['home'],
                                                                         self.task.get('layout', 'default'), after),
-                           expected, observed, unit_test(self.text, self.task['home']))
+                           expected, observed, unit_test(self.text, self.task['home'], variant=self.task.get('host')))
 
     def check(self, ok, sig, message, expected=None, observed=None):
         self.checks += 1
@@ -2016,6 +2099,22 @@ class Walk(object):
 
     def nav1(self, inst, kind, rel):
         return getattr(self.one(inst), kind)[rel]()
+
+    def same_type(self, dt, want, sig, what):
+        '''*dt* carries the name *want*: it must also BE the data type an action of this home sees under that name (the
+        instance-reference types of the classes of its own component), not a namesake declared elsewhere.'''
+        mine = self.host.types.get(want)
+        if mine is None or dt is None or dt.Name != want:
+            return
+        if self.host.variant and class_of(want):
+            self.namesakes += 1
+        other = 'another data type of that name'
+        k = self.nav1(dt, 'S_IRDT', 17)
+        o = self.nav1(k, 'O_OBJ', 123) if k is not None else None
+        if o is not None:
+            other = 'the type of the class %r, which is not the class %s of the component of the action' % (o.Name, o.Key_Lett)
+        self.check(dt is mine, sig + ':namesake', '%s is related to the data type %s -- %s' % (what, want, other),
+                   'the %s visible from the home' % want, other)
 
     def navn(self, inst, kind, rel):
         return list(getattr(self.many(inst), kind)[rel]())
@@ -2274,6 +2373,7 @@ class Walk(object):
         if var is None:
             self.check(dt is not None and dt.Name == inst_t('A'), 'type:self', 'self is typed %s' % (dt.Name if dt else None), inst_t('A'),
                        dt.Name if dt else None)
+            self.same_type(dt, inst_t('A'), 'type:self', 'self (R848)')
             return
         self.check(v_var.Name == var.name, 'structure:variable-name', 'reference to %s resolves to the variable %s' % (var.name, v_var.Name))
         blk = self.nav1(v_var, 'ACT_BLK', 823)
@@ -2285,6 +2385,7 @@ class Walk(object):
             self.check(dt is not None and dt.Name == want, 'type:variable-declaration',
                        'variable %s is typed %s; the value first assigned to it is %s' % (var.name, dt.Name if dt else None, want),
                        want, dt.Name if dt else None)
+            self.same_type(dt, want, 'type:variable-declaration', 'variable %s (R848)' % var.name)
 
     def handle_var(self, h, v_var):
         if h['cls'] == 'SelfAccessNode':
@@ -2327,6 +2428,7 @@ class Walk(object):
                 self.check(e['observed_t'] == want, 'type:%s' % claim,
                            'expression %r is related (R820) to the data type %s; under OAL typing it is %s (%s)' %
                            (self.src(e), e['observed_t'], want, claim), want, e['observed_t'])
+                self.same_type(dt, want, 'type:%s' % claim, 'expression %r (R820)' % self.src(e))
         f = e['fields']
         if cls == 'VariableAccessNode':
             self.var_ref(var, self.nav1(x, 'V_VAR', VAR_USE[kind]))
@@ -2445,7 +2547,7 @@ def c06_child(sub, host, task):
     except Exception as e:
         sub.violation('c06:%s:translate-exception:%s' % (task['family'], type(e).__name__), case,
                       'translating %r in the %s home raised %s: %s' % (text, task['home'], type(e).__name__, e),
-                      'a population', repr(e), unit_test(text, task['home']))
+                      'a population', repr(e), unit_test(text, task['home'], variant=task.get('host')))
         return False
     n0 = len(sub.violations)
     consistent = host.m.is_consistent()
@@ -2458,10 +2560,13 @@ def c06_child(sub, host, task):
                       'after prebuilding %r (%s home) is_consistent() is %s and the schema constraints counted from the persisted '
                       'attribute values are violated %d times: %s' % (text, task['home'], consistent, len(mine), mine[:4]),
                       'is_consistent() and no violated multiplicity or uniqueness constraint', mine[:8] or consistent,
-                      unit_test(text, task['home'], 'print(host.m.is_consistent())'))
+                      unit_test(text, task['home'], 'print(host.m.is_consistent())', variant=task.get('host')))
     w = Walk(sub, host, task, printed, text, spans, an)
     w.run()
     sub.count('checks', w.checks)
+    sub.count('namesake_checks', w.namesakes)
+    if task.get('layout') == 'remarks':
+        sub.count('remark_characters', sum(text.count(c) for c in ODD_CHARACTERS + '\r'))
     sub.count('values', len(w.seen_val))
     sub.count('statements', len(w.seen_smt))
     return len(sub.violations) == n0
@@ -2477,7 +2582,7 @@ def c06_run(ctx, task):
         t = dict(task, layout=lay)
         t.pop('layouts', None)
         ctx.count('runs')
-        res = isolated(ctx, c06_child, t)
+        res = isolated(ctx, c06_child, t, variant=task.get('host'))
         if isinstance(res, tuple):
             hang_or_crash(ctx, 'c06', t, res)
             ok = False
